@@ -13,6 +13,15 @@ F = 'loki/expression/symbolic.py'
 PROP = 'C10'
 
 META = {
+    'category': 'proof',
+    'technique': 'contract-based deductive verification (pyvc: real source re-extracted, symbolic execution, z3 VCs)',
+    'level_text': 'Every obligation of get_pyrange, LoopRange.num_iterations/normalized, iteration_number, '
+                  'iteration_index and ceil_division is discharged by z3 for all integers start/stop and all '
+                  'non-zero steps (literal for get_pyrange, arbitrary operand expressions for the others), from the '
+                  'function text re-read from /repo on every run; simplify() is used through its C08 contract.',
+    'level_note': 'Trusted: pyvc engine and its rewriting table; models of range() and of LokiEvaluationMapper on '
+                  'IntLiteral; the C08 contract of simplify (value preserved under val_Z); Fortran iteration count '
+                  'per F2018 11.1.7.4.1; integers mathematical; termination not proved.',
     'trusted_base': [
         'pyvc engine (CPython execution of the mechanically rewritten real function bodies, proxy classes, z3)',
         'model of Python range(a, b, s): elements a + k*s for 0 <= k < max(0, ceil((b-a)/s))',
@@ -97,5 +106,162 @@ def spec_get_pyrange(with_step):
                         theory=T, lemmas=[], decode=decode)
 
 
+SYMF = 'loki/expression/symbols.py'
+
+
+def operand(name, val=None):
+    """an arbitrary well-formed integer operand whose value under the valuation is the fresh int `name`"""
+    c = ctx()
+    e = fresh_expr(name)
+    v = c.fresh(z3.IntSort(), name + '_val')
+    c.assume(MZ.wf(e.t))
+    c.assume(MZ.val(e.t) == v)
+    return e, v
+
+
+def simplify_contract(expr, enabled_simplifications=None):
+    """CONTRACT of loki.expression.symbolic.simplify (established by the C08 obligations): value preserved
+    under val_Z for operands whose divisors are non-zero; result well formed."""
+    xt = T.lift(expr)
+    return call_contract('simplify', pre=[('wf', MZ.wf(xt))], result=lambda: fresh_expr('simplified'),
+                         post=lambda r: [MZ.val(r.t) == MZ.val(xt), MZ.wf(r.t)])
+
+
+class _Simplification:
+    IntegerArithmetic = 'IntegerArithmetic'
+
+
+GS = {'sym': sym, 'simplify': simplify_contract, 'Simplification': _Simplification, 'pmbl': pmbl}
+GSYM = {n: C[n] for n in ('IntLiteral', 'Sum', 'Product', 'Quotient', 'LoopRange')}
+GSYM['pmbl'] = pmbl
+
+
+def _mk_range(with_step):
+    a, av = operand('start')
+    b, bv = operand('stop')
+    if with_step:
+        s, sv = operand('step')
+        ctx().assume(sv != 0)
+        rng = C['LoopRange']((a, b, s))
+    else:
+        s, sv = None, z3.IntVal(1)
+        rng = C['LoopRange']((a, b))
+    return rng, av, bv, sv
+
+
+def spec_num_iterations(with_step):
+    def setup(spec):
+        rng, av, bv, sv = _mk_range(with_step)
+        n = do_count(av, bv, sv)
+        ctx().assume(n >= 1)            # property: "for every non-empty loop"
+        return (rng,), {}, {'a': av, 'b': bv, 's': sv, 'n': n}
+
+    def post(env, r):
+        return [('count', MZ.val(T.lift(r)) == env['n'])]
+
+    def decode(env, m, r):
+        ev = lambda x: m.eval(x, model_completion=True).as_long()
+        return {'function': 'num_iterations', 'start': ev(env['a']), 'stop': ev(env['b']),
+                'step': ev(env['s']) if with_step else None}
+    return FunctionSpec(PROP, SYMF, 'LoopRange.num_iterations', GSYM, setup, post, theory=T,
+                        variant='step' if with_step else 'nostep', lemmas=exprs.lemmas_for(MZ),
+                        ground=exprs.ground_for(MZ), decode=decode)
+
+
+def spec_normalized(with_step):
+    def num_iter_stub(self):
+        # contract of num_iterations (proved above): value = Fortran iteration count for non-empty loops
+        r = fresh_expr('numiter')
+        ctx().assume(MZ.wf(r.t))
+        return r
+    g = dict(GSYM)
+
+    def setup(spec):
+        rng, av, bv, sv = _mk_range(with_step)
+        n = do_count(av, bv, sv)
+        ctx().assume(n >= 1)
+        ni = fresh_expr('numiter')
+        ctx().assume(z3.And(MZ.wf(ni.t), MZ.val(ni.t) == n))
+        C['LoopRange'].props['num_iterations'] = lambda self: ni
+        return (rng,), {}, {'n': n}
+
+    def post(env, r):
+        rt = T.lift(r)
+        ok = T.recog['is_C_LoopRange'](rt)
+        return [('is-range', ok),
+                ('start-1', MZ.val(T.acc['LoopRange__start'](rt)) == 1),
+                ('stop-n', MZ.val(T.acc['LoopRange__stop'](rt)) == env['n']),
+                ('unit-step', T.acc['LoopRange__step'](rt) == V.VNone)]
+    return FunctionSpec(PROP, SYMF, 'LoopRange.normalized', g, setup, post, theory=T,
+                        variant='step' if with_step else 'nostep', lemmas=exprs.lemmas_for(MZ),
+                        ground=exprs.ground_for(MZ))
+
+
+def spec_iteration_number(with_step):
+    def setup(spec):
+        c = ctx()
+        rng, av, bv, sv = _mk_range(with_step)
+        n = do_count(av, bv, sv)
+        k = c.fresh(z3.IntSort(), 'k')
+        c.assume(z3.And(k >= 0, k < n))          # i is the (k+1)-th value the DO loop visits
+        i, iv = operand('iter_idx')
+        c.assume(iv == av + k * sv)
+        return (i, rng), {}, {'a': av, 'b': bv, 's': sv, 'k': k}
+
+    def post(env, r):
+        return [('number', MZ.val(T.lift(r)) == env['k'] + 1)]
+
+    def decode(env, m, r):
+        ev = lambda x: m.eval(x, model_completion=True).as_long()
+        return {'function': 'iteration_number', 'start': ev(env['a']), 'stop': ev(env['b']),
+                'step': ev(env['s']) if with_step else None, 'k': ev(env['k'])}
+    return FunctionSpec(PROP, F, 'iteration_number', GS, setup, post, theory=T,
+                        variant='step' if with_step else 'nostep', lemmas=exprs.lemmas_for(MZ),
+                        ground=exprs.ground_for(MZ), decode=decode)
+
+
+def spec_iteration_index(with_step):
+    def setup(spec):
+        c = ctx()
+        rng, av, bv, sv = _mk_range(with_step)
+        n = do_count(av, bv, sv)
+        m, mv = operand('iter_num')
+        c.assume(z3.And(mv >= 1, mv <= n))
+        return (m, rng), {}, {'a': av, 'b': bv, 's': sv, 'm': mv}
+
+    def post(env, r):
+        return [('index', MZ.val(T.lift(r)) == env['a'] + (env['m'] - 1) * env['s'])]
+
+    def decode(env, m, r):
+        ev = lambda x: m.eval(x, model_completion=True).as_long()
+        return {'function': 'iteration_index', 'start': ev(env['a']), 'stop': ev(env['b']),
+                'step': ev(env['s']) if with_step else None, 'm': ev(env['m'])}
+    return FunctionSpec(PROP, F, 'iteration_index', GS, setup, post, theory=T,
+                        variant='step' if with_step else 'nostep', lemmas=exprs.lemmas_for(MZ),
+                        ground=exprs.ground_for(MZ), decode=decode)
+
+
+def spec_ceil_division():
+    def setup(spec):
+        x, xv = operand('iexpr1')
+        y, yv = operand('iexpr2')
+        ctx().assume(z3.And(xv >= 1, yv >= 1))      # documented use: positive sizes / block sizes
+        return (x, y), {}, {'x': xv, 'y': yv}
+
+    def post(env, r):
+        x, y = env['x'], env['y']
+        return [('ceil', MZ.val(T.lift(r)) == (x + y - 1) / y)]
+
+    def decode(env, m, r):
+        ev = lambda x: m.eval(x, model_completion=True).as_long()
+        return {'function': 'ceil_division', 'x': ev(env['x']), 'y': ev(env['y'])}
+    return FunctionSpec(PROP, F, 'ceil_division', GS, setup, post, theory=T, lemmas=exprs.lemmas_for(MZ),
+                        ground=exprs.ground_for(MZ), decode=decode)
+
+
 def specs(tier='quick'):
-    return [spec_get_pyrange(True), spec_get_pyrange(False)]
+    out = [spec_get_pyrange(True), spec_get_pyrange(False)]
+    for ws in (True, False):
+        out += [spec_num_iterations(ws), spec_normalized(ws), spec_iteration_number(ws), spec_iteration_index(ws)]
+    out.append(spec_ceil_division())
+    return out
